@@ -62,6 +62,7 @@ type Cfg struct {
 	MaxEvAge    int64   `json:"MaxEvAge"`  // ticks
 	FracDS      string  `json:"FracDS"`    // Dec string
 	FracDT      string  `json:"FracDT"`
+	FracDen     int64   `json:"FracDen"` // denominator of custom burn severities (ExtBurn num/FracDen)
 	Fee         int64   `json:"Fee"`     // base fee of every pos message (PosFeeMap); gov fees are the shipped 10000 unless GovFee set
 	GovFee      int64   `json:"GovFee"`  // if >0 overrides GovFeeMap entries
 	FeeMult     int64   `json:"FeeMult"` // auth FeeMultiplier default
